@@ -55,6 +55,10 @@ CHECKS = {
                 text="Proved for all builders, wires and argument counts from the real source of build/dfg.py: insert_nested / insert_cfg / insert_conditional / insert_tail_loop (through _insert_nested_impl, each caller checked against the callee's contract) perform exactly one insertion of the given builder's HUGR under the inserting builder's own parent node, return the image of its root under the returned mapping, and wire that image to exactly the given wires in the stated order (branching wire first; loop-only inputs before the rest). The isomorphism clause of Hugr.insert_hugr (operations, hierarchy with child order, metadata, output counts, every link with offsets and multiplicity incl. order links, A untouched, B unmodified) is decided by a bounded run over pairs (A, B, parent) whose B carry mutation histories (deleted nodes, reused indices below their parent's, multi-links, order links) with every live node of A tried as parent - not proved; hence category other. One genuine defect was repaired.",
                 note=TRUST + "; Hugr.insert_hugr assumed (bounded-checked), DfBase._wire_up trusted as call recorder (ghost traces).",
                 technique="contract-based deductive verification of the insert_* wrappers over ghost call traces (z3, cross-checked) + labelled bounded isomorphism check of insert_hugr"),
+    "C10": dict(cat="other", design="5/C10",
+                text="Proved from the real source: FunctionType / PolyFuncType.with_runtime_reqs keep the rows and parameters, keep every old requirement, add the new ones, without duplicates (a genuine ordering defect was repaired); Extension.add_op_def / add_type_def / add_extension_value make the extension the owner, hold the definition under its name, keep every other definition, and add_op_def makes the signature name the extension; ExplicitBound / FromParamsBound / TypeDef / OpDef / ExtensionValue decode back with the same name, description, parameters, bound kind and data, binary flag, scheme (parameters, rows) and value, owned by and held in the target extension (encode/decode lemmas on the real bodies with the C05 induction hypotheses). Whole extensions (the three dictionaries, version incl. pre-release tags, requirements, misc data; document fixed point under several PYTHONHASHSEEDs) are decided by a bounded run; 'bundled definition files are byte for byte the published ones, each loads, the typed helpers and registered operations denote definitions that exist with matching parameters' is a closed ground statement decided by evaluation on every run; hence category other.",
+                note=TRUST + "; constituent codecs as induction hypotheses (C05); extensions without lowering functions; OpDefSig invariant assumed in rt_OpDef.",
+                technique="contract-based deductive verification (postconditions over the definition dictionaries, encode/decode code lemmas), z3 cross-checked + labelled bounded round-trip run + ground decision of the closed statements about the bundled files"),
     "C04": dict(cat="other", design="5/C04",
                 text="The graph store is verified against a sequence-per-port view: sub-offset allocation, add_link (the link is appended exactly once to the sequences of both ports; BiMap inverse and contiguity invariants preserved; counts = max), add_order_link (idempotent; order ports are not counted), linked_ports / has_link / order-link listings / outgoing_links / incoming_links as functions of the view (one entry per port whatever the rest of the graph holds), lookup (KeyError exactly for non-live indices), iteration (live indices ascending), counts, children, add_node / add_const (new index was free, every other node keeps index and data), _update_port_count. delete_link, delete_node and insert_hugr are decided by a bounded model-based run of the real code against the sequential multigraph model of the statement (all queries compared after every operation) - not proved; hence category other. Three genuine defects were found and repaired.",
                 note=TRUST + "; BiMap through its C18 contracts; ghost cnt defined by an assumed instance; generator functions eager; _add_node verified in the thorough tier only.",
